@@ -15,8 +15,10 @@ import (
 	"time"
 
 	"github.com/alicebob/miniredis/v2"
+	corev3 "github.com/envoyproxy/go-control-plane/envoy/config/core/v3"
 	envoy "github.com/envoyproxy/go-control-plane/envoy/service/auth/v3"
 	"google.golang.org/protobuf/encoding/protojson"
+	"google.golang.org/protobuf/proto"
 
 	configv1 "github.com/istio-ecosystem/authservice/config/gen/go/v1"
 	"github.com/istio-ecosystem/authservice/internal"
@@ -221,6 +223,9 @@ func (d *driver) symTok(cat, v string) string {
 }
 
 func (d *driver) symURL(v string) string {
+	if s, ok := d.rec.lookup("url", v); ok {
+		return s
+	}
 	for i, u := range urlPool {
 		if v == "https://"+appHost+u {
 			return fmt.Sprintf("u%d", i)
@@ -540,16 +545,20 @@ func (d *driver) setup(spec CfgSpec) error {
 	}
 	ctx, cancel := context.WithCancel(context.Background())
 	e.cancel = cancel
-	e.cfgFile, e.cfg = cf, &cf.Config
+	// assembled as cmd/main.go does: the units are constructed around the configuration object while it is still empty, the
+	// loaded configuration arrives in that very object afterwards, then the PreRun steps run
+	e.cfgFile, e.cfg = cf, &configv1.Config{}
 	tlsPool := internal.NewTLSConfigPool(ctx)
 	jw := oidc.NewJWKSProvider(e.cfg, tlsPool)
-	go func() { _ = jw.ServeContext(ctx) }()
 	fac := oidc.NewSessionStoreFactory(e.cfg)
+	e.factory = &spyFactory{d: d, real: fac, spies: map[oidc.SessionStore]*spyStore{}}
+	e.filter = server.NewExtAuthZFilter(e.cfg, tlsPool, &spyJWKS{d: d, real: jw}, e.factory)
+	proto.Merge(e.cfg, &cf.Config)
+	go func() { _ = jw.ServeContext(ctx) }()
 	if err := fac.PreRun(); err != nil {
 		cancel()
 		return err
 	}
-	e.factory = &spyFactory{d: d, real: fac, spies: map[oidc.SessionStore]*spyStore{}}
 	for _, f := range spec.Filters {
 		if f.SecretRef != "" {
 			e.kube = fake.NewClientBuilder().Build()
@@ -561,7 +570,6 @@ func (d *driver) setup(spec CfgSpec) error {
 			break
 		}
 	}
-	e.filter = server.NewExtAuthZFilter(e.cfg, tlsPool, &spyJWKS{d: d, real: jw}, e.factory)
 	e.replicas = []*server.ExtAuthZFilter{e.filter}
 	for i := 1; i < spec.Replicas; i++ {
 		// a further instance of the service with the same configuration: its own stores (over the same Redis), its own key provider
@@ -862,11 +870,18 @@ func (d *driver) prepare(st *Step) (*checkRun, *envoy.CheckRequest) {
 		path = urlPool[idx]
 		ev["url"] = fmt.Sprintf("u%d", idx)
 	}
-
+	envl := d.env.spec.Env
+	scheme, host := envelopeAuthority(envl, kind)
 	if kind != "app" {
 		// the URL of this request, should the service later send the browser back to it
-		ev["url"] = d.rec.sym("url", "https://"+appHost+path)
+		ev["url"] = d.rec.sym("url", scheme+"://"+host+path)
+	} else if scheme != "https" || host != appHost {
+		// the same pool URL asked for under another scheme / authority is another URL: the login must come back to exactly it
+		sym := fmt.Sprintf("%s@%s", ev["url"], envl)
+		d.rec.bind("url", scheme+"://"+host+path, sym)
+		ev["url"] = sym
 	}
+	ev["env"] = ifs(envl == "", "plain", envl)
 	// the request id is chosen by the client (x-request-id) and is not a secret: every request of a scenario carries the same one
 	headers := map[string]string{chainHdr: f.Name, ":authority": appHost, "x-request-id": "5f1c7b1e-0000-4000-8000-verifverif00"}
 	if cookieVal != "" {
@@ -887,8 +902,9 @@ func (d *driver) prepare(st *Step) (*checkRun, *envoy.CheckRequest) {
 		}
 	}
 	req := &envoy.CheckRequest{Attributes: &envoy.AttributeContext{Request: &envoy.AttributeContext_Request{
-		Http: &envoy.AttributeContext_HttpRequest{Id: "42", Method: "GET", Scheme: "https", Host: appHost, Path: path, Headers: headers, Protocol: "HTTP/1.1"},
+		Http: &envoy.AttributeContext_HttpRequest{Id: "42", Method: "GET", Scheme: scheme, Host: host, Path: path, Headers: headers, Protocol: "HTTP/1.1"},
 	}}}
+	applyEnvelope(envl, req)
 	if st.Shape != "" {
 		req = shapeRequest(st.Shape, req, cname)
 		ev["shape"] = st.Shape
@@ -1261,4 +1277,65 @@ func (d *driver) describeLocation(f *FilterSpec, v string) map[string]any {
 	}
 	out["raw"] = v
 	return out
+}
+
+
+// ---- request envelopes -----------------------------------------------------------------------------------------------
+
+// envelopeAuthority gives the scheme and Host a request of the envelope carries. A callback keeps the authority of the
+// configured callback URI (the service recognises callbacks by it).
+func envelopeAuthority(env, kind string) (string, string) {
+	switch env {
+	case "http":
+		return "http", appHost
+	case "port443":
+		if kind != "callback" {
+			return "https", appHost + ":443"
+		}
+	}
+	return "https", appHost
+}
+
+// applyEnvelope dresses a request in things that do not change what it asks for: another method, headers set by proxies,
+// browsers and scripts, peer addresses that are not sockets. Every property is judged as for the plain request.
+func applyEnvelope(env string, req *envoy.CheckRequest) {
+	h := req.Attributes.Request.Http
+	switch env {
+	case "", "http", "port443":
+	case "post":
+		h.Method = "POST"
+		h.Headers["content-type"] = "application/x-www-form-urlencoded"
+		h.Headers["content-length"] = "0"
+	case "head":
+		h.Method = "HEAD"
+	case "preflight":
+		h.Method = "OPTIONS"
+		h.Headers["origin"] = "https://evil.example"
+		h.Headers["access-control-request-method"] = "GET"
+		h.Headers["access-control-request-headers"] = "authorization"
+	case "xhr":
+		h.Headers["x-requested-with"] = "XMLHttpRequest"
+		h.Headers["sec-fetch-mode"] = "cors"
+		h.Headers["sec-fetch-site"] = "same-origin"
+		h.Headers["accept"] = "application/json"
+	case "proxied":
+		h.Headers["x-forwarded-proto"] = "http"
+		h.Headers["x-forwarded-host"] = "evil.example"
+		h.Headers["x-forwarded-for"] = "203.0.113.7"
+		h.Headers["forwarded"] = "for=203.0.113.7;proto=http;host=evil.example"
+		h.Headers["x-envoy-original-path"] = "/healthz?probe=1"
+		h.Headers["x-original-url"] = "/public/index.html"
+		h.Headers["x-rewrite-url"] = "/static/site.css"
+	case "peers":
+		req.Attributes.Source = &envoy.AttributeContext_Peer{Address: &corev3.Address{Address: &corev3.Address_Pipe{Pipe: &corev3.Pipe{Path: "/run/envoy.sock"}}}}
+		req.Attributes.Destination = &envoy.AttributeContext_Peer{Address: &corev3.Address{Address: &corev3.Address_EnvoyInternalAddress{
+			EnvoyInternalAddress: &corev3.EnvoyInternalAddress{AddressNameSpecifier: &corev3.EnvoyInternalAddress_ServerListenerName{ServerListenerName: "internal"}}}}}
+	case "peersEmpty":
+		req.Attributes.Source = &envoy.AttributeContext_Peer{Address: &corev3.Address{}}
+		req.Attributes.Destination = &envoy.AttributeContext_Peer{}
+		req.Attributes.ContextExtensions = map[string]string{"virtual_host": "app"}
+		req.Attributes.MetadataContext = &corev3.Metadata{}
+	default:
+		panic("unknown request envelope " + env)
+	}
 }
